@@ -27,16 +27,26 @@ inductive RunRes where
   | ok
   | typeErr      -- ordinary error from a run-time type check (converter on a "may" connection)
   | panic        -- a type assertion failed: `unexpected input type`
-  | steps        -- ran out of steps
+  | steps        -- step limit exceeded
+  | stuck        -- no task left and END not reached ("no tasks to execute")
+  | merge        -- two values reached one node in the same superstep (fan-in merge: not modelled)
   deriving DecidableEq, Repr, Inhabited
 
 def _root_.EinoV.Build.Runner.node (r : Runner) (k : Key) : Option Node := findNode r.nodes k
 
+/-- declared input type of a node of the runner (`g.getNodeInputType`) -/
 def _root_.EinoV.Build.Runner.inOf (r : Runner) (k : Key) : Option Ty :=
-  if k = END then some r.outT else (r.node k).bind (·.inTy)
+  if k = START then some r.inT else if k = END then some r.outT else
+  match findNode r.nodes k with
+  | some n => n.inTy
+  | none => none
 
+/-- declared output type (`g.getNodeOutputType`) -/
 def _root_.EinoV.Build.Runner.outOf (r : Runner) (k : Key) : Option Ty :=
-  if k = START then some r.inT else (r.node k).bind (·.outTy)
+  if k = START then some r.inT else if k = END then some r.outT else
+  match findNode r.nodes k with
+  | some n => n.outTy
+  | none => none
 
 def _root_.EinoV.Build.Runner.isPassthrough (r : Runner) (k : Key) : Bool :=
   match r.node k with
@@ -52,21 +62,22 @@ inductive Ev where
   | pass | typeErr | panic
   deriving DecidableEq, Repr
 
-/-- a value of dynamic type `d` travels over the data connection `a → b`: converter first
-    (only if one was installed), then the assertion at the receiving side – the node's
-    `input.(I)` (also what its state pre-handler asserts), or the final `out.(O)` for END;
-    a pass-through node asserts nothing. -/
-def arrive (im : Impl) (r : Runner) (a b : Key) (d : Dyn) : Ev :=
+/-- the converter installed on the data connection `a → b` (if any) checks a value of
+    dynamic type `d`: generic_helper.go defaultValueChecker, an ordinary error -/
+def convert (im : Impl) (r : Runner) (a b : Key) (d : Dyn) : Ev :=
   match r.inOf b with
-  | none => .pass          -- untyped pass-through: nothing is asserted
-  | some t =>
-    if r.mayEdges.contains (a, b) && !dynOk im d t then .typeErr
-    else if r.isPassthrough b then .pass
-    else if !dynOk im d t then .panic
-    else .pass
+  | none => .pass
+  | some t => if r.mayEdges.contains (a, b) && !dynOk im d t then .typeErr else .pass
 
-/-- the value leaving node `a` reaches the condition of the `i`-th branch (input type `t`,
-    converter installed iff `conv`) -/
+/-- the assertion at the receiving side – the node's `input.(I)` (also what its state
+    pre-handler asserts), or the final `out.(O)` for END; a pass-through node asserts nothing -/
+def assertIn (im : Impl) (r : Runner) (b : Key) (d : Dyn) : Ev :=
+  match r.inOf b with
+  | none => .pass
+  | some t => if r.isPassthrough b then .pass else if !dynOk im d t then .panic else .pass
+
+/-- the value leaving a node reaches the condition of a branch (input type `t`, converter
+    installed iff `conv`): converter first, then the branch's `input.(T)` -/
 def arriveBranch (im : Impl) (t : Ty) (conv : Bool) (d : Dyn) : Ev :=
   if conv && !dynOk im d t then .typeErr
   else if !dynOk im d t then .panic
@@ -86,15 +97,17 @@ def zipIdx {α : Type} : List α → Nat → List (Nat × α)
 def _root_.EinoV.Build.Runner.branchTable (r : Runner) : List (Nat × BranchRec × Bool) :=
   (zipIdx (r.branches.zip (r.preBranch.map (·.2))) 0).map (fun p => (p.1, p.2.1, p.2.2))
 
-/-- everything that happens after node `k` produced a value of dynamic type `d`:
-    events at its branch conditions, and the deliveries to its data successors -/
+/-- everything that happens once node `k` (or START) has produced a value of dynamic type
+    `d`: its branch conditions are evaluated, the value is handed to the data successors
+    through the edge converters -/
 def emit (im : Impl) (r : Runner) (c : Code) (k : Key) (d : Dyn) : List Ev × List Delivery :=
   let es := (r.dataEdges.filter (·.1 = k)).map (fun e => ({ src := k, dst := e.2, d } : Delivery))
   let bs := r.branchTable.filter (fun p => p.2.1.src = k)
-  let evs := bs.map (fun p => arriveBranch im p.2.1.inTy p.2.2 d)
+  let bevs := bs.map (fun p => arriveBranch im p.2.1.inTy p.2.2 d)
   let bd := bs.filterMap (fun p =>
     if p.2.1.noData then none else some ({ src := k, dst := c.pick k p.1 d, d } : Delivery))
-  (evs, es ++ bd)
+  let ds := es ++ bd
+  (bevs ++ ds.map (fun dl => convert im r dl.src dl.dst dl.d), ds)
 
 def worst : List Ev → Ev
   | [] => .pass
@@ -102,32 +115,44 @@ def worst : List Ev → Ev
   | .typeErr :: es => (match worst es with | .panic => .panic | _ => .typeErr)
   | .pass :: es => worst es
 
-/-- one superstep: every delivery of the level arrives; nodes that received run and emit -/
+/-- one task: the node asserts its input, runs, and emits -/
+def task (im : Impl) (r : Runner) (c : Code) (dl : Delivery) : List Ev × List Delivery :=
+  match assertIn im r dl.dst dl.d with
+  | .pass =>
+    let out := if r.isPassthrough dl.dst then dl.d else c.body dl.dst dl.d
+    emit im r c dl.dst out
+  | e => ([e], [])
+
+/-- one superstep: all tasks of the level -/
 def level (im : Impl) (r : Runner) (c : Code) : List Delivery → List Ev × List Delivery
   | [] => ([], [])
   | dl :: rest =>
-    let e := arrive im r dl.src dl.dst dl.d
-    let (evs, next) := level im r c rest
-    match e with
-    | .pass =>
-      if dl.dst = END then (e :: evs, next)
-      else
-        let out := if r.isPassthrough dl.dst then dl.d else c.body dl.dst dl.d
-        let (bevs, ds) := emit im r c dl.dst out
-        (e :: bevs ++ evs, ds ++ next)
-    | _ => (e :: evs, next)
+    let (e1, d1) := task im r c dl
+    let (e2, d2) := level im r c rest
+    (e1 ++ e2, d1 ++ d2)
+
+def hasDupDst : List Delivery → Bool
+  | [] => false
+  | dl :: rest => rest.any (·.dst = dl.dst) || hasDupDst rest
+
+/-- after the events of a superstep passed: END reached (final `out.(O)`), fan-in, or go on -/
+def settle (im : Impl) (r : Runner) (ds : List Delivery) : Option RunRes :=
+  if hasDupDst ds then some .merge
+  else match ds.find? (·.dst = END) with
+    | some dl => some (match assertIn im r END dl.d with | .pass => .ok | _ => .panic)
+    | none => if ds.isEmpty then some .stuck else none
 
 def runLevels (im : Impl) (r : Runner) (c : Code) : Nat → List Delivery → RunRes
   | 0, _ => .steps
   | fuel + 1, ds =>
-    match ds with
-    | [] => .ok
-    | _ =>
-      let (evs, next) := level im r c ds
-      match worst evs with
-      | .panic => .panic
-      | .typeErr => .typeErr
-      | .pass => runLevels im r c fuel next
+    let (evs, next) := level im r c ds
+    match worst evs with
+    | .panic => .panic
+    | .typeErr => .typeErr
+    | .pass =>
+      match settle im r next with
+      | some res => res
+      | none => runLevels im r c fuel next
 
 /-- a whole run on an input of dynamic type `d0` (which the caller's Go types force to
     inhabit the graph's input type) -/
@@ -136,6 +161,9 @@ def runGraph (im : Impl) (r : Runner) (c : Code) (fuel : Nat) (d0 : Dyn) : RunRe
   match worst evs with
   | .panic => .panic
   | .typeErr => .typeErr
-  | .pass => runLevels im r c fuel ds
+  | .pass =>
+    match settle im r ds with
+    | some res => res
+    | none => runLevels im r c fuel ds
 
 end EinoV.C07
